@@ -83,8 +83,11 @@ KINDS = {"ping": ping_scn, "chan": chan_scn, "exec": exec_scn, "signal": signal_
 
 def gen(seed, n, kind):
     out = [KINDS[kind](random.Random(seed * 7919 + i), "%s%d_%d" % (kind[0], seed, i)) for i in range(n)]
-    for s in out:
+    for i, s in enumerate(out):
         s["final_dispatches"] = 12      # enough to drain any queue these scripts can build, even at batch limit 1
+        if kind in ("signal", "blockon") and i % 2 == 1:
+            # an armed timer far in the future: the wait is bounded by its deadline instead of being infinite
+            s["far_timer_ms"] = 6000
     return out
 
 
